@@ -5,7 +5,7 @@
    the lifecycle theorems (C01, C03). *)
 From Coq Require Import ZArith List Bool.
 Import ListNotations.
-Require Import SV.Life.Model SV.Life.Policy SV.Life.Inv SV.Life.Trace.
+Require Import SV.Life.Model SV.Life.Policy SV.Life.Inv SV.Life.Trace SV.Life.InvProofs SV.Life.PolicyRun SV.Life.StopRun SV.Life.RpcRun.
 Open Scope Z_scope.
 
 Theorem c04_signal_target :
@@ -47,3 +47,74 @@ Theorem c04_stopped_restarts_only_via_starting :
   forall t, edge STOPPED t = true -> t = STARTING.
 Proof. destruct t; cbn; intro H; try discriminate; reflexivity. Qed.
 Print Assumptions c04_stopped_restarts_only_via_starting.
+
+(* a stop request on a RUNNING/STARTING process: STOPPING notification, then exactly one kill with the configured stopsignal to the child or (iff stopasgroup) its group; deadline = now + stopwaitsecs *)
+Theorem c04_stop_sends_stopsignal_first :
+  forall (U : Z) (pconfs : list pconf) (w : world) (i : nat),
+         sts w i = RUNNING \/ sts w i = STARTING ->
+         pid (procs w i) > 0 ->
+         exists (b : bool) (w' : world),
+           stop U pconfs i w = (Some b, w') /\
+           fr i w w' /\
+           (let pd := pid (procs w i) in
+            let tg := kill_target (cf pconfs i) (sts w i) pd in
+            Z.abs tg = pd /\
+            (tg < 0 <-> c_stopasgroup (cf pconfs i) = true) /\
+            (exists r : Z,
+               (r = 0 \/ r = 1 \/ r = 2) /\
+               b = (r =? 2) /\
+               out w' =
+               (if r =? 2 then EState i STOPPING UNKNOWN 0 true :: nil else nil) ++
+               EKill tg (c_stopsignal (cf pconfs i)) r :: EState i (sts w i) STOPPING pd true :: out w /\
+               sts w' i = (if r =? 2 then UNKNOWN else STOPPING) /\
+               admin_stop (procs w' i) = true /\
+               pid (procs w' i) = pd /\
+               (r <> 2 ->
+                killing (procs w' i) = true /\ delay (procs w' i) = now w + c_stopwaitsecs (cf pconfs i) * U))).
+Proof. exact stop_sends_stopsignal_first. Qed.
+Print Assumptions c04_stop_sends_stopsignal_first.
+
+(* a pass over a STOPPING process sends SIGKILL (to the group iff killasgroup) iff the rollback-adjusted deadline has passed, and restarts the wait; otherwise only the adjustment happens *)
+Theorem c04_sigkill_exactly_when_due :
+  forall (U : Z) (pconfs : list pconf) (w : world) (i : nat),
+         sts w i = STOPPING ->
+         pid (procs w i) > 0 ->
+         exists w' : world,
+           transition U pconfs i w = (Some tt, w') /\
+           fr i w w' /\
+           (let pd := pid (procs w i) in
+            let p0 := adjust_times U STOPPING (cf pconfs i) (now w) (procs w i) in
+            let tg := kill_target (cf pconfs i) STOPPING pd in
+            Z.abs tg = pd /\
+            (tg < 0 <-> c_killasgroup (cf pconfs i) = true) /\
+            (kill_due p0 (now w) = true ->
+             exists r : Z,
+               (r = 0 \/ r = 1 \/ r = 2) /\
+               out w' =
+               (if r =? 2 then EState i STOPPING UNKNOWN 0 true :: nil else nil) ++ EKill tg 9 r :: out w /\
+               sts w' i = (if r =? 2 then UNKNOWN else STOPPING) /\
+               (r <> 2 ->
+                killing (procs w' i) = true /\ delay (procs w' i) = now w + c_stopwaitsecs (cf pconfs i) * U)) /\
+            (kill_due p0 (now w) = false -> sts w' i = STOPPING /\ procs w' i = p0 /\ out w' = out w) /\
+            ((exists (l : list effect) (tg' r : Z), out w' = l ++ EKill tg' 9 r :: out w) <-> now w >= delay p0)).
+Proof. exact sigkill_exactly_when_due. Qed.
+Print Assumptions c04_sigkill_exactly_when_due.
+
+(* in every run, STOPPING is left only for STOPPED immediately after the child was waited for, or for UNKNOWN immediately after a kill failure *)
+Theorem c04_stopping_left_only_by_reap_or_failed_kill :
+  forall (U : Z) (pconfs : list pconf) (gconfs : list gconf) (ops : list passop) 
+           (l : list effect) (i : nat) (t : pstate) (x : Z) (e : bool) (r : list effect),
+         out (run U pconfs gconfs ops) = l ++ EState i STOPPING t x e :: r ->
+         t = STOPPED /\ (exists (q s : Z) (r' : list effect), r = EWait q s :: r') \/
+         t = UNKNOWN /\ (exists (tg sg : Z) (r' : list effect), r = EKill tg sg 2 :: r').
+Proof. exact stopping_until_reaped_then_stopped. Qed.
+Print Assumptions c04_stopping_left_only_by_reap_or_failed_kill.
+
+(* in every run, every signal goes to a pid (or the group of a pid) that supervisord forked earlier *)
+Theorem c04_signals_only_to_own_children :
+  forall (U : Z) (pconfs : list pconf) (gconfs : list gconf) (ops : list passop) 
+           (l : list effect) (tg sg r : Z) (rest : list effect),
+         out (run U pconfs gconfs ops) = l ++ EKill tg sg r :: rest ->
+         exists (j : nat) (q : Z), In (EFork j q) rest /\ (tg = q \/ tg = - q).
+Proof. exact kill_effects_target_forked_child. Qed.
+Print Assumptions c04_signals_only_to_own_children.
